@@ -243,11 +243,18 @@ package store
 //@   requires checksum_check_needs_the_data_set_lock_free: r.verifyCrc ==> dsMuxHeld == 0
 //@   requires nonnil: r != nil
 //@   ghost var positionedAt mathint = 0 - 1
-//@   modifies heap, positionedAt
+//@   modifies heap, positionedAt, refusedSeg, nClosedSeg
 //@   set positionedAt = 0 - 1 at call OpenFile
 //@   set positionedAt = 0 - 1 at call isCorrupted
 //@   set positionedAt = ite(whence == 0 && result1 == nil, offset, 0 - 1) after call Seek
 //@   ensures an_opened_segment_is_read_from_its_first_record_not_from_its_file_header: result == nil ==> positionedAt == headerSize
+//   refusedSeg  the segment's size / checksum check (or the positioning) failed;  nClosedSeg  closes of the segment's descriptor
+//@   ghost var refusedSeg mathint = 0
+//@   ghost var nClosedSeg mathint = 0
+//@   set refusedSeg = ite(result != nil, 1, refusedSeg) after call isCorrupted
+//@   set nClosedSeg = nClosedSeg + 1 after call closeAof
+//@   set nClosedSeg = nClosedSeg + 1 after call Close optional
+//@   ensures a_segment_that_failed_its_check_is_not_left_open_for_reading [C08]: refusedSeg == 1 ==> result != nil && nClosedSeg > 0
 //@ func NewAofRotateReader
 //@   arith int
 //@   properties C05 C08
